@@ -5,6 +5,7 @@ package main
 // verifiers over the right and over deliberately wrong candidate buffers.
 
 import (
+	"os"
 	"bytes"
 	"crypto"
 	"crypto/sha256"
@@ -148,7 +149,21 @@ func runSignVar(sc M) {
 				attributes.Efivars = "/sys/firmware/efi/efivars"
 				e := &efivarfs.EFIFS{FSWrapper: fswrapper.NewMemoryWrapper()}
 				e.SetFS(r)
-				if err := efivarfs.Open(e).WriteSignedUpdate(v, rawDB(payload), signer, cert); err != nil {
+				if ex := str(sc, "existing"); ex != "" {
+					// the variable exists already and holds some of the entries of the update (an append to a populated dbx)
+					if f, ferr := r.inner.OpenFile("/sys/firmware/efi/efivars/"+name+"-"+guidText(gw), os.O_CREATE|os.O_WRONLY|os.O_TRUNC, 0644); ferr == nil {
+						f.Write(append(le32(am&^0x40), storeValue(ex)...))
+						f.Close()
+					}
+				}
+				var wpl efivar.Marshallable = rawDB(payload)
+				if str(sc, "existing") != "" {
+					// ... handed over as a decoded database, as a tool that builds the append does
+					if db, derr := signature.ReadSignatureDatabase(bytes.NewReader(payload)); derr == nil && len(payload) > 0 {
+						wpl = &db
+					}
+				}
+				if err := efivarfs.Open(e).WriteSignedUpdate(v, wpl, signer, cert); err != nil {
 					return err
 				}
 				for _, c := range r.calls {
